@@ -44,6 +44,7 @@ def loop_plan(prop):
                 ctx.trace("deep", props, sessions=20, calls=4, check_attrs=False, kinds="10", timeout=3000)
             if prop in ("C01", "C05"):
                 ctx.apalache_inductive()
+                ctx.refinement()
         return dict(rule=LOOP_RULE, exhaustive=False, assumptions=ASSUME_COMMON)
     return run
 
